@@ -207,7 +207,7 @@ func (x *Exec) generate(want func(name string) bool) []*FuncReport {
 		fn := x.allFuncs[k]
 		if fn == nil {
 			// interface method contract or a contract for a function that no longer exists
-			if x.isIfaceContract(con) {
+			if x.isIfaceContract(con) || strings.HasPrefix(con.Key, "callback:") {
 				continue
 			}
 			name := shortPkg(con.PkgPath) + "." + con.Key
